@@ -131,6 +131,9 @@ def _spell(t, d):
     if k == 'bool':
         return d.recase(t[1])
     if k == 'err':
+        if t[1].upper() == '#REF!' and d.p(0.3):
+            # what Excel leaves of a reference to a deleted sheet: the error literal swallows the cell part
+            return d.recase(t[1]) + d.recase(d.rnd.choice(['A1', '$B$2', 'C3:D4', '$A$1:$B$2', 'A:B', '$C:$D', '1:2', '$3:$4', 'XFD1048576']))
         return t[1]
     if k == 'ref':
         s = t[1]
